@@ -59,7 +59,7 @@ def choose_cfgs(g, k, tier):
     if "atoms" in g.tags:
         return EOL_CFGS
     if tier == "thorough":
-        idx = [0, 1, 2, 3, 5, 8, 10] if (k % 2 == 0) else [0, 1, 4, 6, 7, 9, 11]
+        idx = ([0, 1, 2, 3, 8], [0, 1, 4, 6, 9], [0, 5, 7, 10, 11])[k % 3]
     else:
         rot = [2, 3, 4, 5, 6, 7, 8, 9, 10, 11]
         idx = [k % 2, rot[k % len(rot)], rot[(k * 7 + 3) % len(rot)]]
